@@ -95,6 +95,10 @@ def run(ctx):
     ctx.rule("R3", "implicit-function derivative of the rho1 / rho2 root solves (expression algebra)")
     ctx.rule("R4", "implicit SCF adjoint differentiates detached leaves and uses only ctx state")
     ctx.rule("R5", "unrolled backward mode (backward=True) updates the density out of place in every driver")
+    ctx.rule("R6", "no singularity is merely masked by torch.where on a differentiable path (0*inf = NaN gradients)")
+    from .. import wherenan
+    if wherenan.check(ctx, "R6") < 10:
+        raise AnalysisError("C07-R6: where-sites with singular branches not inventoried")
 
     # ------------------------------------------------------------------ R1 (a) stores into the parameter dictionary
     n_store = 0
